@@ -51,6 +51,10 @@ def c07():
         R("c07-erk-equivalent-respelling", "C07", ERK, "                k = fcn(t0 + c[j] * h, h * ak + y, *params)\n            ks.append(k)\n            ksum = ksum + b[j] * k\n        y = h * ksum + y",
           "                k = fcn(h * c[j] + t0, y + ak * h, *params)\n            ks.append(k)\n            ksum = k * b[j] + ksum\n        y = y + ksum * h", None, expect="silent"),
         R("c07-erk-locals-renamed", "C07", ERK, "        t0 = t[i]\n        t1 = t[i + 1]\n        h = t1 - t0\n", "        ta = t[i]\n        t0 = ta\n        dt = t[i + 1] - ta\n        h = dt\n        t1 = ta + dt\n", None, expect="silent"),
+        R("c07-erk-precomputed-steps-ok", "C07", ERK, "    yt_lst: List[torch.Tensor] = []\n    yt_lst.append(y0)", "    hs = t[1:] - t[:-1]\n    yt_lst: List[torch.Tensor] = []\n    yt_lst.append(y0)", None, expect="silent",
+          note="precomputing the differences changes nothing"),
+        R("c07-erk-precomputed-steps-used-ok", "C07", ERK, "        t1 = t[i + 1]\n        h = t1 - t0\n", "        h = (t[1:] - t[:-1])[i]\n", None, expect="silent"),
+        R("c07-erk-uniform-shortcut", "C07", ERK, "        t1 = t[i + 1]\n        h = t1 - t0\n", "        hs = t[1:] - t[:-1]\n        if torch.allclose(hs, hs[:1]):\n            hs = hs[:1].expand(nt - 1)\n        h = hs[i]\n", "C07-R"),
         R("c07-erk-two-steps-per-interval", "C07", ERK, "        y = h * ksum + y\n        yt_lst.append(y)", "        y = h * ksum + y\n        yt_lst.append(y)\n        if i == nt - 2:\n            yt_lst[-1] = y + 0 * ksum", None, expect="undetected",
           note="placeholder removed below"),
         # ---- rk_step
